@@ -16,7 +16,7 @@ LEVEL_TEXT = ("Generated sets of 2-6 anchored ACGT adapters (equal and mixed len
 LEVEL_NOTE = ("Trusted base: refmodel edit/Hamming distance with plain (case-insensitive) comparison; reference enumeration of all "
               "admissible affix lengths. The tie premise is evaluated both over all adapters and over the adapters within tolerance; "
               "a case is used for the agreement clause only if neither pair ties.")
-VARIANTS = {"quick": ["plain"], "thorough": ["plain", "asan"]}
+VARIANTS = {"quick": ["plain", "asan"], "thorough": ["plain", "asan"]}
 BUDGET_S = {"quick": 150, "thorough": 3000}
 FLOORS = {"quick": 5000, "thorough": 150000}
 RULE = ("Seeded random adapter sets x 12 reads each. Non-trivial = the index reported a match, or exactly one adapter occurs "
@@ -318,7 +318,7 @@ def run_shard(ctx):
         for k in range(ctx.scale(6, 100)):
             cli_case(ctx, ctx.shard * 100000 + k)
     rng = ctx.rng("c08")
-    n = ctx.scale(150, 8000) if ctx.variant == "plain" else ctx.scale(60, 1000)
+    n = ctx.scale(150, 8000) if ctx.variant == "plain" else ctx.scale(25, 1000)
     for i in range(n):
         if ctx.out_of_time():
             ctx.count("stopped_on_time_budget")
